@@ -13,7 +13,8 @@ From J5V.model Require ProtoPrintFile.
 From J5V.proofs Require CmpbPrintBridgeProofs CmpbPrintBridgeExample ProtoPrintFileExample.
 From J5V.model Require CmpbBytes ProtoPrintFileWf ProtoParseFile.
 From J5V.proofs Require ProtoPrintFileFullProofs.
-From J5V.proofs Require CmpbBytesProofs CmpbBytesExampleProofs CmpbBytesDepsProofs.
+From J5V.proofs Require CmpbBytesProofs CmpbBytesExampleProofs CmpbBytesDepsProofs CmpbBytesGenProofs.
+From J5V.model Require CmpbBytesGen.
 Import ListNotations.
 Local Open Scope N_scope.
 
@@ -89,6 +90,43 @@ Proof.
 Qed.
 Print Assumptions C14_output_any_range_order.
 
+(* the files come back in the sorted order of their names (sort.Strings in CompilePackage), in every run *)
+Theorem C14_output_file_order : forall bd exts ann pkgs r n o,
+  valid (CmpbBytes.flat_bundle pkgs (CmpbBytes.src_files bd)) -> CmpbBytes.run_ok pkgs bd r ->
+  CmpbBytes.compile_and_print bd exts ann r n = Some o -> strict_sorted (map (fun x => fst (fst x)) o).
+Proof. exact CmpbBytesGenProofs.output_file_order. Qed.
+Print Assumptions C14_output_file_order.
+
+(* `j5 j5s genproto` (cmd/j5/internal/cli/j5s.go): ONE PackageSet; for every package in ListPackages() order: CompilePackage, then
+   PrintFile + PutFile for every returned file named *.j5s.proto; the first error ends the loop.  CmpbBytesGen.genproto runs
+   compile_and_print for the packages of the run's own listing in order, each after the ones before it (with_earlier).  There
+   is a function [table] from package to the (file name, tokens) pairs written for it such that the loop of EVERY run returns
+   [table] mapped over that run's listing: the set of files written and their text do not depend on the listing order, the
+   other orders, the fuels, the earlier calls or the Range order *)
+Theorem C14_genproto_deterministic : forall bd exts ann pkgs rank frank,
+  let b0 := CmpbBytes.flat_bundle pkgs (CmpbBytes.src_files bd) in
+  valid b0 -> well_founded_deps b0 rank ->
+  owner_ok (cmpa_convert bd) CmpbBytes.split_owner (CmpbBytes.is_local_of pkgs) b0 ->
+  imports_wf (cmpa_convert bd) CmpbBytes.split_owner (CmpbBytes.is_local_of pkgs) (CmpbBytes.c_ext_file exts) CmpbBytes.c_deps_of b0 frank ->
+  CmpbBytesProofs.ann_ok ann ->
+  exists table : bytes -> list (bytes * list ProtoPrint.token), forall r, CmpbBytes.run_ok pkgs bd r ->
+    (forall n, In n pkgs -> (rank n < CmpbBytes.r_fuel r)%nat) ->
+    (forall n f, In n pkgs -> In f (map fst (p_files (spec_pkg (cmpa_convert bd) b0 n))) -> (frank f < CmpbBytes.r_lfuel r)%nat) ->
+    CmpbBytesGen.genproto bd exts ann r = Some (map (fun n => (n, table n)) (CmpbBytes.r_pkgs r)).
+Proof. exact CmpbBytesGenProofs.genproto_deterministic. Qed.
+Print Assumptions C14_genproto_deterministic.
+(* on the example: listing [foo.v1; baz.v1] and listing [baz.v1; foo.v1] (everything else reversed as well) write the same
+   four files with the same tokens *)
+Example C14_example_genproto : exists wfoo wbaz,
+  CmpbBytesGen.genproto CmpbBytesExampleProofs.exb_bd CmpbBytesExampleProofs.exb_exts CmpbBytesExampleProofs.exb_ann CmpbBytesExampleProofs.exb_r1
+    = Some [(b "foo.v1", wfoo); (b "baz.v1", wbaz)]
+  /\ CmpbBytesGen.genproto CmpbBytesExampleProofs.exb_bd CmpbBytesExampleProofs.exb_exts CmpbBytesExampleProofs.exb_ann CmpbBytesExampleProofs.exb_r2
+    = Some [(b "baz.v1", wbaz); (b "foo.v1", wfoo)]
+  /\ map fst wfoo = [b "foo/v1/a.j5s.proto"; b "foo/v1/b.j5s.proto"; b "foo/v1/service/b.p.j5s.proto"]
+  /\ map fst wbaz = [b "baz/v1/types.j5s.proto"].
+Proof. exact CmpbBytesGenProofs.exb_genproto. Qed.
+Print Assumptions C14_example_genproto.
+
 (* the package listing enters only as a set: hasAPrefix over localPrefixes (C14-C class: a package directory nested in
    another one, enclosing package listed first), and the bundle CompilePackage sees (localPackageNames + the path.Dir
    filter of listPackageFiles) is the same up to the order of each package's files; a package IS the same for both *)
@@ -138,6 +176,37 @@ Proof.
         (conj CmpbBytesExampleProofs.exb_range_differs CmpbBytesExampleProofs.exb_total))))))))).
 Qed.
 Print Assumptions C14_example_output_bytes.
+
+(* the seeded class C14-C on the model: package outer.v1.inner.v1 lies in a directory below package outer.v1.  The path.Dir
+   filter gives each package its own file under both listings, both local prefixes match the nested file, the owner is
+   outer.v1.inner.v1 for EVERY listing - whereas packageForFile as the seeded change writes it ("the first listed package whose
+   prefix matches") answers differently for the two listings; the run that lists the enclosing package first and the run
+   that lists it last (file listing and map orders reversed, outer.v1 compiled earlier) compile and print the nested package
+   to the same single file, which imports the enclosing package's file and a file of the dependency set *)
+Example C14_example_nested_package_directory :
+  (map (fun pre => J5sAst.has_prefix pre CmpbBytesExampleProofs.p_inner) (CmpbBytes.local_prefixes CmpbBytesExampleProofs.exn_pkgs) = [true; true]
+   /\ CmpbBytes.split_owner CmpbBytesExampleProofs.p_inner = b "outer.v1.inner.v1")
+  /\ (CmpbBytesExampleProofs.first_listed_owner CmpbBytesExampleProofs.exn_pkgs CmpbBytesExampleProofs.p_inner
+       <> CmpbBytesExampleProofs.first_listed_owner (rev CmpbBytesExampleProofs.exn_pkgs) CmpbBytesExampleProofs.p_inner
+      /\ forall pkgs, Permutation pkgs CmpbBytesExampleProofs.exn_pkgs ->
+           (if CmpbBytes.is_local_of pkgs CmpbBytesExampleProofs.p_inner then Some (CmpbBytes.split_owner CmpbBytesExampleProofs.p_inner) else None)
+           = Some (b "outer.v1.inner.v1"))
+  /\ (CmpbBytes.run_ok CmpbBytesExampleProofs.exn_pkgs CmpbBytesExampleProofs.exn_bd CmpbBytesExampleProofs.exn_r1
+      /\ CmpbBytes.run_ok CmpbBytesExampleProofs.exn_pkgs CmpbBytesExampleProofs.exn_bd CmpbBytesExampleProofs.exn_r2)
+  /\ exists o,
+       CmpbBytes.compile_and_print CmpbBytesExampleProofs.exn_bd CmpbBytesExampleProofs.exb_exts CmpbBytesExampleProofs.exn_ann
+         CmpbBytesExampleProofs.exn_r1 (b "outer.v1.inner.v1") = Some o
+       /\ CmpbBytes.compile_and_print CmpbBytesExampleProofs.exn_bd CmpbBytesExampleProofs.exb_exts CmpbBytesExampleProofs.exn_ann
+            CmpbBytesExampleProofs.exn_r2 (b "outer.v1.inner.v1") = Some o
+       /\ map (fun x => (fst (fst x), match snd (fst x) with Some d => fl_deps d | None => [] end)) o
+          = [(CmpbBytesExampleProofs.p_inner, [CmpbBytesExampleProofs.p_ann; b "outer/v1/outer.j5s.proto"])]
+       /\ forallb (fun x => negb (Nat.eqb (length (snd x)) 0)) o = true.
+Proof.
+  exact (conj (proj2 (proj2 CmpbBytesExampleProofs.exn_attribution))
+          (conj CmpbBytesExampleProofs.exn_first_listed_owner_order_dependent
+            (conj CmpbBytesExampleProofs.exn_runs_ok CmpbBytesExampleProofs.exn_computes))).
+Qed.
+Print Assumptions C14_example_nested_package_directory.
 
 (* ... and the tokens of the example are protobuf text FOR the descriptor in tool's model: every printer descriptor that
    to_print builds there, under both Range orders, is well formed in tool's sense (every type reference resolves in the symbol
@@ -347,6 +416,17 @@ Theorem C14_no_runtime_process_state : no_runtime_process_state = true.
 Proof. exact no_runtime_process_state_holds. Qed.
 Print Assumptions C14_no_runtime_process_state.
 
+(* instance-level state: every map / channel / sync field of a struct type of those packages (regenerated) is classified:
+   ONE cache that survives calls and is a parameter of the model (PackageSet.Packages; the SearchResult.Linked inside its values
+   is the link cache), two memos of functions of fixed inputs (dependencyResolver.resultCache = ext_file; SchemaSet.cachedSpecs,
+   not modelled), the rest components of values built once.  A new map field breaks the set equality until reviewed *)
+Theorem C14_instance_state_reviewed :
+  state_fields_same_set = true
+  /\ caches_and_memos = [("protobuild", "PackageSet", "Packages"); ("protobuild", "dependencyResolver", "resultCache");
+                         ("walker/schema", "SchemaSet", "cachedSpecs")]%string.
+Proof. exact (conj state_fields_agree caches_and_memos_are). Qed.
+Print Assumptions C14_instance_state_reviewed.
+
 (* ---- the shape of every unordered loop body, regenerated from the Go source, is the one its row was written for;
    every key collection that is used as a sequence is followed by a sort *)
 Theorem C14_order_bodies_agree : order_bodies_same_set = true.
@@ -458,6 +538,20 @@ Theorem C14_print_map_entries : forall l1 l2,
   Permutation l1 l2 -> distinct_on (fun kv : bytes * bytes => fst kv) l1 -> map_entries l1 = map_entries l2.
 Proof. exact map_entries_perm. Qed.
 Print Assumptions C14_print_map_entries.
+
+(* ... for EVERY kind a map key can have (bool, the ten integer kinds, string): the entries are ordered by their printed keys as
+   Go strings whatever the kind.  Regenerated from optionreflect/walk.go: a sort call with a function-literal comparator follows
+   the Range; every switch over protoreflect kinds in that comparator (and in the functions it calls) and in the code that prints
+   the key has an arm for each of the twelve kinds (C14-H: a comparator switching over the kind without sint / fixed arms); on
+   the current code the comparator does not switch over the kind at all, which is what map_entries models *)
+Theorem C14_map_key_kinds_covered : map_key_kinds_covered = true.
+Proof. exact map_key_kinds_are_covered. Qed.
+Print Assumptions C14_map_key_kinds_covered.
+Theorem C14_map_key_comparator_kind_agnostic :
+  map_key_comparator_kind_agnostic = true
+  /\ forall k l1 l2, Permutation l1 l2 -> distinct_on (fun kv : bytes * bytes => fst kv) l1 -> map_entries_of_kind k l1 = map_entries_of_kind k l2.
+Proof. exact (conj map_key_comparator_is_kind_agnostic map_entries_of_kind_perm). Qed.
+Print Assumptions C14_map_key_comparator_kind_agnostic.
 
 (* ---- non-vacuity *)
 Example C14_example_imports :
